@@ -17,6 +17,7 @@ THEOREMS = ['Fsic.C09.' + n for n in [
     'strict_reports_closest', 'strict_values_setter_works', 'strict_values_setter_blocked_at_witness']]
 RULE = ('histories of public operations {add_variable, add_attribute, attribute set, name-key set, positional set, '
         '(name,label) set, (name,label-slice) set, replace_values, values setter (array/scalar/list), toggle strict, '
+        'attribute names include members of the class (methods, class constants: copy, eval, NAMES, ...), '
         'malformed key} with operands {scalar, list, tuple, range, nested list (1xn, nx1, nxm, ragged, empty rows), '
         'ndarray rank 0/1/2 of right/wrong length, length-1 array} x kinds {float,int,bool,str} on VectorContainer, '
         'BaseModel (hand-written and parser-built) and BaseLinker (with and without submodels), span length 0..5: '
@@ -57,6 +58,12 @@ STR_NUM = ['12', '7', '-3', '0']
 STR_TXT = ['a', 'bcd', '', 'xyzuvw']
 NEW_NAMES = ['A', 'B', 'C', 'a', 'Ab', 'P']
 ATTR_NAMES = ['P', 'Q', 'note', 'Aa', 'b', 'Yy', 'H2']
+# names that are members of the CLASS (methods, class constants) on some or all flavours; for the container they are
+# names like any other: without strict `obj.copy = 5` adds an instance attribute (shadowing the method), with strict
+# it must raise.  Chosen so that shadowing them does not disturb the operations the histories use; read-only
+# properties (size, nbytes, a linker's LAGS / LEADS / sizes) are left out: assigning to them fails in `object`.
+CLASS_MEMBERS = ['copy', 'eval', 'exec', 'reindex', 'to_dataframe', '_ipython_key_completions_', 'NAMES', 'ENDOGENOUS',
+                 'CHECK', 'CODE', 'solve', 'iter_periods', '_evaluate']
 
 
 def rand_scalar(rng, kind=None):
@@ -159,9 +166,10 @@ def rand_item(rng, names, n, labels):
         return {'op': 'addVariable', 'name': name, 'v': enc_operand(rand_operand(rng, n, rng.choice(KINDS + [None]))),
                 'dtype': kind}
     if r < 0.18:
-        return {'op': 'addAttribute', 'name': rng.choice(ATTR_NAMES + known[:1])}
+        return {'op': 'addAttribute', 'name': rng.choice(ATTR_NAMES + known[:1] + CLASS_MEMBERS[:4])}
     if r < 0.38:
-        name = nm() if rng.random() < 0.8 else rng.choice(ATTR_NAMES)
+        r2 = rng.random()
+        name = nm() if r2 < 0.7 else rng.choice(ATTR_NAMES) if r2 < 0.85 else rng.choice(CLASS_MEMBERS)
         return {'op': 'setAttr', 'name': name, 'v': enc_operand(rand_operand(rng, n))}
     if r < 0.48:
         return {'op': 'setItem', 'name': nm(), 'v': enc_operand(rand_operand(rng, n))}
@@ -248,6 +256,8 @@ def core_alphabet():
         {'op': 'setAttr', 'name': 'B', 'v': E(np.array([1.0]))},
         {'op': 'setAttr', 'name': 'Q', 'v': E(1)},
         {'op': 'setAttr', 'name': 'Ab', 'v': E(1)},
+        {'op': 'setAttr', 'name': 'copy', 'v': E(1)},
+        {'op': 'setAttr', 'name': 'exec', 'v': E([1, 2, 3])},
         {'op': 'setItem', 'name': 'A', 'v': E((1, 2, 3))},
         {'op': 'setItem', 'name': 'Z', 'v': E(1)},
         {'op': 'setItem', 'name': 'B', 'v': E(['12', 'a', '7'])},
